@@ -2,11 +2,15 @@ use crate::report::{Evidence, Report};
 
 pub mod c04;
 pub mod c12;
+pub mod c13;
+pub mod c14;
 
 pub fn lookup(id: &str) -> Option<fn(&Report, bool) -> Evidence> {
     Some(match id {
         "C04" => c04::run,
         "C12" => c12::run,
+        "C13" => c13::run,
+        "C14" => c14::run,
         _ => return None,
     })
 }
